@@ -68,3 +68,8 @@ package zebra
 //@ func (Nexthop).encode
 //@   claims inv-init
 //@   loop 0 invariant n.flags&zapiNexthopFlagLabel > 0 || message&MessageLabel > 0
+// ... and the backup next-hop list of a route is read under the condition it is written under: ZAPI 6 of FRR 7.4
+// or later (in older flavours the same message bit means "labels")
+//@ func (*IPRouteBody).decodeFromBytes
+//@   claims at-call
+//@   at-call ^b.decodeMessageNexthopFromBytes(data[pos:], version, software, true) requires version == 6 && software.name == "frr" && software.version >= 7.4
